@@ -74,3 +74,33 @@ def replay_plain_server_arbitrary_stream(model, params, role):
         return script, (lambda out: "PANIC" in out), "peer bytes fed to a PLAIN server engine; expecting a panic"
     return script, (lambda out: "handshake_complete" in out or "deliver" in out or "phase Data" in out), \
         "peer bytes fed to a PLAIN server engine; expecting handshake_complete/deliver/Data without valid HELLO"
+
+
+def gate_without_available_mechanism(h):
+    """A listener configured with a mechanism other than NULL/PLAIN (the situation of a CURVE or NOISE_XX
+    socket as far as greeting, mechanism negotiation and the ZMTP/2.0 gate are concerned): security_enabled
+    is set, PLAIN is not. No peer byte stream may complete the handshake: NULL, PLAIN, unknown mechanism
+    names and ZMTP/2.0 greetings must all be refused."""
+    n = h.params.get("n", 84)
+    srv = h.choose(2, "is_server") == 1
+    allow = h.choose(2, "allow_zmtp2") == 1
+    cfg = mk_config(h, socket_type_name=string("REP"), security_enabled=True, use_plain=False, allow_zmtp2=allow)
+    eng = mk_engine(h, srv, cfg)
+    _stop_at_data_phase(h)
+    h.panic_role = "c06.gate.panic"
+    start(h, eng)
+    out = feed(h, eng, h.bytes("peer", n))
+    acts = app_actions(out)
+    ph = phase(h, eng)
+    h.check(not _authenticated(acts) and ph not in ("Data", "Ready"), "c06.gate.handshake-progressed-without-the-configured-mechanism",
+            f"phase {ph} reached although neither NULL nor PLAIN is acceptable for this socket")
+    h.cover("c06.gate.refused", ph == "Closed")
+    h.cover("c06.gate.still-waiting", ph == "Greeting")
+
+
+def replay_gate_without_available_mechanism(model, params, role):
+    ch = dict(map(tuple, model.get("_choices", [])))
+    script = (f"engine {'server' if ch.get('is_server') else 'client'} type=REP security=1 use_plain=0 allow_zmtp2={ch.get('allow_zmtp2', 1)}\n"
+              f"start\nfeed {model.get('peer', '')}\nphase\n")
+    return script, (lambda out: "handshake_complete" in out or "phase Data" in out or "phase Ready" in out or "PANIC" in out), \
+        "arbitrary peer bytes against an engine whose configured mechanism is neither NULL nor PLAIN"
